@@ -98,7 +98,10 @@ Max2(a, b) == IF a < b THEN b ELSE a
 (* ======================= condensed index ================================ *)
 CLen(n) == (n * (n - 1)) \div 2
 Cidx(n, p, q) == (p - 1) * n - ((p - 1) * p) \div 2 + (q - p)       \* 1 <= p < q <= n
-PairAt(n, k) == CHOOSE pq \in (1..n) \X (1..n) : pq[1] < pq[2] /\ Cidx(n, pq[1], pq[2]) = k
+\* pair k of the condensed vector; tabulated once (constant-level definitions are cached by TLC)
+PairTab == [n \in 1..9 |-> SortSeq(SetToSeq({pq \in (1..n) \X (1..n) : pq[1] < pq[2]}),
+                                   LAMBDA a, b : a[1] < b[1] \/ (a[1] = b[1] /\ a[2] < b[2]))]
+PairAt(n, k) == PairTab[n][k]
 MatAt(v, n, p, q) == v[Cidx(n, Min2(p, q), Max2(p, q))]               \* p # q
 \* square form -> fancy index with sel on both axes -> condensed form (RDMs.reorder)
 VecFromSel(v, n, sel) ==
@@ -380,6 +383,7 @@ InitList ==
   \E method \in Methods, rm \in RMs, prec \in PrecSet, prec2 \in PrecSet, prior \in PriorSet,
      useDesc \in UseDescs :
     /\ OptOk(method, rm, prec, prior) /\ OptOk(method, rm, prec2, prior)
+    /\ (prec = <<>>) <=> (prec2 = <<>>)     \* "a given precision": given for both datasets or for neither
     /\ \E lab \in [1..NObs -> Lab], lab2 \in [1..NObs2 -> Lab] :
          /\ (useDesc \/ ListNoDescOk(lab, lab2))
          /\ \E x \in MatSet(NObs), x2 \in MatSet(NObs2) :
@@ -429,12 +433,16 @@ Build == /\ stage = "kernel"
 SortAlpha == /\ stage = "built"
              /\ srt' = SortedOf(inp, built) /\ stage' = "sorted"
              /\ UNCHANGED <<inp, means, kern, built, out, contrib>>
-Combine(mode) == /\ stage = "sorted" /\ inp.mode = mode
-                 /\ out' = CombineOp(inp, srt) /\ stage' = "done"
-                 /\ UNCHANGED <<inp, means, kern, built, srt, contrib>>
-Single == Combine("single")
-ListBranch == Combine("list")
-Movie == Combine("movie")
+\* the three ways the (sorted) partial RDMs are combined; written out so that TLC's coverage names them
+Single == /\ stage = "sorted" /\ inp.mode = "single"
+          /\ out' = CombineOp(inp, srt) /\ stage' = "done"
+          /\ UNCHANGED <<inp, means, kern, built, srt, contrib>>
+ListBranch == /\ stage = "sorted" /\ inp.mode = "list"
+              /\ out' = CombineOp(inp, srt) /\ stage' = "done"
+              /\ UNCHANGED <<inp, means, kern, built, srt, contrib>>
+Movie == /\ stage = "sorted" /\ inp.mode = "movie"
+         /\ out' = CombineOp(inp, srt) /\ stage' = "done"
+         /\ UNCHANGED <<inp, means, kern, built, srt, contrib>>
 
 (* ----------------------- C02 stages ------------------------------------- *)
 \* means = [d: working dataset, fm: fold means]; kern = pair products; built = averaged result
@@ -603,12 +611,17 @@ MovieIsStack ==
          /\ inp.method = "correlation" => out.rdms[b].vec = o1.rdms[1].vec
 
 \* the label-keyed content of a result: invariant under everything that only reorders
-RowRec(o, r, p) == <<o.lab[p], IF o.grp = <<>> THEN 0 ELSE o.grp[p], IF o.ext = <<>> THEN 0 ELSE o.ext[p],
-                     IF o.rdms[r].rates = <<>> THEN <<>> ELSE o.rdms[r].rates[p]>>
+\* (for poisson the entry is the bag over channels of the unordered pairs of rates - what the value
+\* is a symmetric, channel-additive function of)
+RowRec(o, p) == <<o.lab[p], IF o.grp = <<>> THEN 0 ELSE o.grp[p], IF o.ext = <<>> THEN 0 ELSE o.ext[p]>>
+PoisBag(ra, rb) == IF ra = <<>> \/ rb = <<>> THEN Undefined ELSE
+  LET S == {{ra[c], rb[c]} : c \in 1..Len(ra)} IN
+  [u \in S |-> Cardinality({c \in 1..Len(ra) : {ra[c], rb[c]} = u})]
 ResKey(o) == IF o = <<>> THEN {} ELSE
   LET n == Len(o.lab) IN
-  {<<r, {RowRec(o, r, pq[1]), RowRec(o, r, pq[2])},
-     IF o.rdms[r].vec = <<>> THEN <<>> ELSE o.rdms[r].vec[Cidx(n, pq[1], pq[2])]>> :
+  {<<r, {RowRec(o, pq[1]), RowRec(o, pq[2])},
+     IF o.rdms[r].rates # <<>> THEN PoisBag(o.rdms[r].rates[pq[1]], o.rdms[r].rates[pq[2]])
+     ELSE o.rdms[r].vec[Cidx(n, pq[1], pq[2])]>> :
      r \in 1..Len(o.rdms), pq \in {x \in (1..n) \X (1..n) : x[1] < x[2]}}
 \* for poisson_cv the rates are per fold: keyed by the fold label, invariant under row/channel
 \* permutation only (relabelling renames the keys)
